@@ -33,7 +33,7 @@ CLAIMS = {
             "4/C06", TRUST + " Hook-provided insert text is caller content and not snippet-checked."),
     "C18": ("property-based testing (rapid), metamorphic: translate the file by inserted blank/comment lines and compare every query result up to shifting",
             "Metamorphic generated-input search: result(original, p) with the edited file's ranges shifted equals result(translated, shift(p)) for every query kind and cursor; the parser-level precondition (top-level AST is translated) is checked, not assumed.",
-            "4/C18", TRUST + " Insertion at offset 0 is excluded (the root body's own start does not move); insertion points inside multi-line tokens are excluded."),
+            "4/C18", TRUST + " Insertion in front of the first item is included (results carrying the root body's own extent are mapped onto the translated extent; ambiguous one-line / whole-body / blank files excluded); insertion points inside multi-line tokens are excluded; a cursor the library places outside the parser's root body (leading blanks of line 1) is upstream."),
     "C20": ("property-based testing (rapid) against a reference model built from generator annotations (call parentheses and own commas)",
             "Generated function tables and call trees with recorded structure; soundness (whatever is returned is the innermost enclosing known call with fixed++variadic parameters and the comma-count active index, none beyond the parameters) on all inputs incl. half-typed prefixes, completeness on parse-clean text.",
             "4/C20", TRUST + " Don't-care positions: cursor exactly at the opening parenthesis; calls with an empty argument slot."),
@@ -47,8 +47,8 @@ CLAIMS = {
             "Every cursor of generated valid, edited and half-typed files: a hover is an error/nothing or non-empty content with a valid range containing the cursor; on attribute names, block types and labels the content, description (static + selected dependent body) and range are compared with the model; unknown elements must yield nothing; inside values the range must stay inside the value.",
             "4/C12", TRUST + " Which sub-expression a value hover describes is bounded by range containment only."),
     "C13": ("property-based testing (rapid): ordering/disjointness invariants on all files; structural-token exactness and literal tokens against a reference model",
-            "Generated files incl. broken ones: tokens sorted, disjoint, non-empty, advertised types, deterministic. Against the model: attribute-name / block-type / label tokens are exactly the schema-known elements with inherited modifiers, nothing marks unknown attributes / blocks / surplus labels, value tokens stay inside known values, plain literals carry exactly their literal token.",
-            "4/C13", TRUST + " Reference-step and function-name tokens are bounded (inside known values) rather than compared one by one."),
+            "Generated files incl. broken ones: tokens sorted, disjoint, non-empty, advertised types, deterministic. Against the model: attribute-name / block-type / label tokens are exactly the schema-known elements with inherited modifiers, nothing marks unknown attributes / blocks / surplus labels, value tokens stay inside known values, and an exact value-token model (literals, keywords, type names, map and object keys, known function names; reference steps optional) is compared for every value whose shape fits its constraint.",
+            "4/C13", TRUST + " Value tokens are compared one by one for values whose shape fits their constraint (literals, keywords, type names, map / object keys, known function names); whether a reference step is marked depends on resolution and is only bounded here."),
     "C07": ("property-based testing (rapid) against a reference model of the effective schema (own dependent-body selection and overlay on the serialisable model); acceptance relation by applying candidates and re-validating",
             "Generated schema/configuration pairs with sprinkled blank lines and half-typed names; every cursor is classified on the parser AST and the ordered candidate list is compared with the model (attributes, count/for_each, block types still declarable with the typed prefix; dependent-body label values inside completable labels). Sampled candidates are applied and the file re-validated.",
             "4/C07", TRUST + " Exactness is judged only where error recovery cannot have reshaped the body (parse errors tolerated on the cursor line and on lone-identifier lines); `dynamic` and the any-attribute placeholder are don't-care."),
@@ -63,13 +63,13 @@ CLAIMS = {
             "4/C09", TRUST + " One known finding (D21, first element of a block group) is listed in known_findings.json; types of expression-typed attributes are only modelled for plain literals."),
     "C11": ("property-based testing (rapid) over Terraform-like worlds with resolving references; independent matching predicate (necessary / sufficient conditions) and the go-to-definition / find-references inverse relation",
             "For every collected origin, go-to-definition is judged sound and complete against a matching predicate written from the statement (address equality / dynamic prefix / block-local containment / scope and type constraints, target path), and find-references at each reported definition must list the origin; find-references results must themselves be collected origins pointing into the queried path that denote a declaration at the position.",
-            "4/C11", TRUST + " The sets of targets and origins are the collectors' own output (their exactness is C09/C10)."),
+            "4/C11", TRUST + " The sets of targets and origins are the collectors' own output (their exactness is C09/C10). Worlds have 1-3 paths; in three-path worlds the third is a twin of the first (same file names and ranges) so that origins of different paths collide on everything but the path."),
     "C19": ("property-based testing (rapid), differential: one structured configuration rendered in native and in JSON syntax, reference graph and outline compared",
             "One generated configuration model (any-expression, reference, one-of(reference, literal), list, map, object and literal constraints; interpolated and legacy bare-string references) is rendered twice; absolute targets (address, type, scope, nesting), origin addresses with constraints up to the documented any-type fallback, and the block/attribute outline must agree between the two syntaxes.",
             "4/C19", TRUST + " Only schema-known attributes are written (JSON cannot tell unknown attributes from blocks), and where a reference and a string literal are both admitted the literals are strings that are no traversal (JSON cannot tell them from a legacy reference); ranges and block-local targets are ignored as the statement says. One known finding (escaped string index under a Reference constraint) is listed in known_findings.json."),
     "C08": ("property-based testing (rapid): validity predicate per value-completion candidate against the collected declarations and the attribute's constraint; round trip through go-to-definition",
             "Terraform-like worlds with resolving references and half-typed values; every candidate inside an attribute value is judged: reference candidates are addresses of collected declarations, start with the typed text, are visible (block-local names, self.*), are not the edited attribute and fit the expected scope/type where known; function candidates are known functions with convertible return type; accepted reference candidates resolve back through go-to-definition.",
-            "4/C08", TRUST + " Soundness of candidates only ('offers only what fits'); the expected scope/type is judged only where the value is a plain traversal or empty."),
+            "4/C08", TRUST + " Soundness of candidates only ('offers only what fits'); the expected scope/type is judged where the value is a plain traversal or empty, and inside the parentheses of a call of a known function (the parameter of the comma-counted argument slot decides)."),
 }
 
 def main():
